@@ -147,6 +147,37 @@ def run(p):
             check_reversible(p, t, name, X.surface_point(rng), worst)
     for _ in range(p.n(800, 30000)):
         check_reversible(p, X.random_set(rng, None, None), None, X.surface_point(rng), worst)
+    # (b2) sets whose numbers are numpy scalars (parameters read with numpy from a file or taken out of an array):
+    #      same numbers, other type; formula and reversal hold for them too
+    for _ in range(p.n(300, 6000)):
+        base = X.random_set(rng, False, False)
+        mode = rng.choice(['float64', 'int64', 'int32', 'from-array'])
+        vals = [getattr(base, f) for f in X.P7]
+        if mode == 'float64':
+            nv = [np.float64(v) for v in vals]
+        elif mode == 'from-array':
+            nv = list(np.array([float(v) for v in vals]))
+        else:
+            ty = np.int64 if mode == 'int64' else np.int32
+            nv = [ty(int(round(v))) if i < 4 else ty(max(-59, min(59, int(round(v))))) for i, v in enumerate(vals)]
+        t = K.Transformation('A', 'B', 0, *nv)
+        plain = K.Transformation('A', 'B', 0, *[v.item() for v in nv])
+        xyz = X.surface_point(rng)
+        inp = [*xyz, X.describe(plain), mode]
+        call = f'conform7(..., t), conform7(..., -t) with t = {X.call_trans(plain)} holding numpy {mode} scalars'
+        p.case('numpy_typed_set', inp)
+        ok, r = p.guarded('conform7:formula', 'numpy_typed_set', inp, lambda: T.conform7(*xyz, t)[:3], call)
+        if not ok:
+            continue
+        ex = X.formula(*xyz, X.params7(plain))
+        p.check(X.maxdev(r, ex) <= TOL_FORMULA, 'conform7:formula', 'numpy_typed_set', inp, [float(v) for v in r],
+                [float(v) for v in ex], call)
+        ok, b = p.guarded('conform7:reversible:random', 'numpy_typed_set', inp, lambda: T.conform7(*r, -t)[:3], call)
+        if not ok:
+            continue
+        d = math.dist([float(v) for v in b], xyz)
+        tol = X.second_order_bound(X.params7(plain), math.sqrt(sum(c * c for c in xyz))) + 2 * TOL_FORMULA
+        p.check(d <= tol, 'conform7:reversible:random', 'numpy_typed_set', inp, d, f'<= {tol!r} m', call)
     # (c) covariance propagation
     with_sd = [(n, t) for n, t in X.SHIPPED if type(t.tf_sd) is K.TransformationSD]
     without_sd = [(n, t) for n, t in X.SHIPPED if t.tf_sd is None]
